@@ -1,5 +1,5 @@
 (* Proofs about the served-data model (C17).  Part 1: the registry and the Delete* functions. *)
-From Coq Require Import ZArith List Bool Lia.
+From Coq Require Import ZArith List Bool Lia String.
 From Burrow Require Import Int64 F32 Eval EvalGroupProofs AMap AMapProofs Ring Storage Metrics.
 Import ListNotations.
 Open Scope Z_scope.
@@ -1057,4 +1057,29 @@ Proof.
   eexists. eexists. eexists.
   split; [vm_compute; reflexivity|]. split; [vm_compute; reflexivity|].
   repeat (split; [vm_compute; reflexivity|]). vm_compute. discriminate.
+Qed.
+
+(* ====================================================================================================
+   Part 5: the regenerated tables
+   ==================================================================================================== *)
+Theorem sites_ok_sound l :
+  sites_ok l = true ->
+  (exists s, In s l /\ site_req s = "StorageSetDeleteTopic"%string) /\
+  (forall s, In s l -> site_req s = "StorageSetDeleteTopic"%string -> In (wanted_call s) (site_calls s)).
+Proof.
+  unfold sites_ok. intros H. apply andb_true_iff in H. destruct H as [He Hf]. split.
+  - apply existsb_exists in He. destruct He as (s & Hin & Ht). exists s. split; [exact Hin|].
+    unfold topic_site in Ht. apply String.eqb_eq. exact Ht.
+  - intros s Hin Hr. rewrite forallb_forall in Hf. specialize (Hf s Hin). unfold site_ok, topic_site in Hf.
+    rewrite Hr, String.eqb_refl in Hf. apply existsb_exists in Hf. destruct Hf as (c & Hc & Heq).
+    apply String.eqb_eq in Heq. subst c. exact Hc.
+Qed.
+
+Theorem tags_ok_sound tbl :
+  tags_ok tbl = true -> forall s f k, In (s, f, k) required_tags -> In (s, f, k) tbl.
+Proof.
+  unfold tags_ok. intros H. apply andb_true_iff in H. destruct H as [Hr _]. rewrite forallb_forall in Hr.
+  intros s f k Hin. specialize (Hr _ Hin). apply existsb_exists in Hr. destruct Hr as ([[s' f'] k'] & Hin' & He).
+  unfold tag_eqb in He. cbn [fst snd] in He. apply andb_true_iff in He. destruct He as [He Hk].
+  apply andb_true_iff in He. destruct He as [Hs Hf]. apply String.eqb_eq in Hs, Hf, Hk. subst. exact Hin'.
 Qed.
